@@ -1,7 +1,1123 @@
-//! `build.*` and `impl.build.*` operations (stub; filled in by the owner of this family).
+//! `build.*` operations (C10): PacketBuilder.  Same grammar and line formats as
+//! lean/EpModel/Driver/Build.lean (see the comment at the top of that file).
+//!
+//! `build.write` runs `write` (generic `std::io::Write` path into a wrapper around a Vec),
+//! `write_to_vec` and `write_to_slice` (exact-size buffer) on three separately constructed
+//! builders and compares the results (`!serialisers-differ(...)` if they are not identical),
+//! and prints `size(payload.len())`.
 #![allow(unused_imports, dead_code)]
 use crate::util::*;
+use etherparse::err::packet::{BuildSliceWriteError, BuildVecWriteError, BuildWriteError};
+use etherparse::err::ValueTooBigError;
+use etherparse::*;
 
-pub fn run(_op: &str, _a: &[&str]) -> Option<String> {
-    None
+// ---------------------------------------------------------------------------------------------
+// parsing
+
+type P<T> = Option<Result<T, String>>;
+
+fn hex_n<const N: usize>(s: &str) -> Option<[u8; N]> {
+    hex(s)?.try_into().ok()
+}
+fn boolean(s: &str) -> Option<bool> {
+    match s {
+        "1" => Some(true),
+        "0" => Some(false),
+        _ => None,
+    }
+}
+fn list(s: &str) -> Vec<&str> {
+    if s == "-" {
+        Vec::new()
+    } else {
+        s.split(',').collect()
+    }
+}
+fn colon(s: &str) -> Vec<&str> {
+    s.split(':').collect()
+}
+
+fn parse_payload(s: &str) -> Option<Vec<u8>> {
+    let p = colon(s);
+    match &p[..] {
+        ["len", n, b] => {
+            let n: usize = num(n)?;
+            let b: u8 = num(b)?;
+            if n >= 1_000_000 {
+                return None;
+            }
+            Some(vec![b; n])
+        }
+        [h] => hex(h),
+        _ => None,
+    }
+}
+
+#[derive(Clone)]
+enum LinkC {
+    None,
+    Eth([u8; 6], [u8; 6]),
+    Sll(LinuxSllPacketType, u16, [u8; 8]),
+}
+
+#[derive(Clone)]
+enum VlanC {
+    None,
+    S(VlanId),
+    D(VlanId, VlanId),
+    V(VlanHeader),
+}
+
+#[derive(Clone)]
+enum NetC {
+    Arp(ArpPacket),
+    V4([u8; 4], [u8; 4], u8),
+    V6([u8; 16], [u8; 16], u8),
+    Ip(IpHeaders),
+}
+
+#[derive(Clone)]
+enum FlagOp {
+    Ns,
+    Fin,
+    Syn,
+    Rst,
+    Psh,
+    Ece,
+    Cwr,
+    Ack(u32),
+    Urg(u16),
+}
+
+#[derive(Clone)]
+enum OptC {
+    None,
+    Raw(Vec<u8>),
+    El(Vec<TcpOptionElement>),
+}
+
+#[derive(Clone)]
+enum IcmpC<T> {
+    T(T),
+    Raw(u8, u8, [u8; 4]),
+    Ereq(u16, u16),
+    Erep(u16, u16),
+}
+
+#[derive(Clone)]
+enum TpC {
+    None,
+    Raw(u8),
+    Udp(u16, u16),
+    Tcp(u16, u16, u32, u16, Vec<FlagOp>, OptC),
+    TcpH(TcpHeader),
+    I4(IcmpC<Icmpv4Type>),
+    I6(IcmpC<Icmpv6Type>),
+}
+
+#[derive(Clone)]
+struct Cfg {
+    link: LinkC,
+    vlan: VlanC,
+    net: NetC,
+    tp: TpC,
+}
+
+fn parse_link(s: &str) -> Option<LinkC> {
+    let p = colon(s);
+    match &p[..] {
+        ["none"] => Some(LinkC::None),
+        ["eth", a, b] => Some(LinkC::Eth(hex_n::<6>(a)?, hex_n::<6>(b)?)),
+        ["sll", pt, alen, addr] => {
+            let pt: u16 = num(pt)?;
+            let pt = LinuxSllPacketType::try_from(pt).ok()?;
+            Some(LinkC::Sll(pt, num(alen)?, hex_n::<8>(addr)?))
+        }
+        _ => None,
+    }
+}
+
+fn parse_vlan_h(a: &[&str]) -> Option<SingleVlanHeader> {
+    match a {
+        [p, d, v, e] => Some(SingleVlanHeader {
+            pcp: VlanPcp::try_new(num(p)?).ok()?,
+            drop_eligible_indicator: boolean(d)?,
+            vlan_id: VlanId::try_new(num(v)?).ok()?,
+            ether_type: EtherType(num(e)?),
+        }),
+        _ => None,
+    }
+}
+
+fn parse_vlan(s: &str) -> Option<VlanC> {
+    let p = colon(s);
+    match &p[..] {
+        ["none"] => Some(VlanC::None),
+        ["s", v] => Some(VlanC::S(VlanId::try_new(num(v)?).ok()?)),
+        ["d", o, i] => Some(VlanC::D(
+            VlanId::try_new(num(o)?).ok()?,
+            VlanId::try_new(num(i)?).ok()?,
+        )),
+        ["vs", r @ ..] => Some(VlanC::V(VlanHeader::Single(parse_vlan_h(r)?))),
+        ["vd", a, b, c, d, e, f, g, h] => Some(VlanC::V(VlanHeader::Double(DoubleVlanHeader {
+            outer: parse_vlan_h(&[a, b, c, d])?,
+            inner: parse_vlan_h(&[e, f, g, h])?,
+        }))),
+        _ => None,
+    }
+}
+
+fn too_big<T: core::fmt::Display + core::fmt::Debug + Clone + Eq + core::hash::Hash>(
+    e: &ValueTooBigError<T>,
+) -> String {
+    format!(
+        "err(toobig(actual={},max={},type={:?}))",
+        e.actual, e.max_allowed, e.value_type
+    )
+}
+
+fn rawext_value(nh: &str, payload: &str) -> P<Ipv6RawExtHeader> {
+    let nh: u8 = num(nh)?;
+    let payload = hex(payload)?;
+    Some(match Ipv6RawExtHeader::new_raw(IpNumber(nh), &payload) {
+        Ok(h) => Ok(h),
+        Err(e) => Err(format!("err(extlen({:?}))", e)),
+    })
+}
+
+fn auth_value(nh: &str, spi: &str, seq: &str, icv: &str) -> P<IpAuthHeader> {
+    let nh: u8 = num(nh)?;
+    let spi: u32 = num(spi)?;
+    let seq: u32 = num(seq)?;
+    let icv = hex(icv)?;
+    Some(match IpAuthHeader::new(IpNumber(nh), spi, seq, &icv) {
+        Ok(h) => Ok(h),
+        Err(e) => Err(format!("err(icv({:?}))", e)),
+    })
+}
+
+fn frag_value(nh: &str, fo: &str, mf: &str, id: &str) -> P<Ipv6FragmentHeader> {
+    let nh: u8 = num(nh)?;
+    let fo: u16 = num(fo)?;
+    let mf = boolean(mf)?;
+    let id: u32 = num(id)?;
+    let fo = match IpFragOffset::try_new(fo) {
+        Ok(v) => v,
+        Err(e) => return Some(Err(too_big(&e))),
+    };
+    Some(Ok(Ipv6FragmentHeader::new(IpNumber(nh), fo, mf, id)))
+}
+
+fn ipv4_value(a: &[&str]) -> P<Ipv4Header> {
+    if let [dscp, ecn, tlen, id, df, mf, fo, ttl, proto, ck, src, dst, opts] = a {
+        let dscp: u8 = num(dscp)?;
+        let ecn: u8 = num(ecn)?;
+        let tlen: u16 = num(tlen)?;
+        let id: u16 = num(id)?;
+        let df = boolean(df)?;
+        let mf = boolean(mf)?;
+        let fo: u16 = num(fo)?;
+        let ttl: u8 = num(ttl)?;
+        let proto: u8 = num(proto)?;
+        let ck: u16 = num(ck)?;
+        let src: [u8; 4] = hex_n::<4>(src)?;
+        let dst: [u8; 4] = hex_n::<4>(dst)?;
+        let opts = hex(opts)?;
+        let dscp = match IpDscp::try_new(dscp) {
+            Ok(v) => v,
+            Err(e) => return Some(Err(too_big(&e))),
+        };
+        let ecn = match IpEcn::try_new(ecn) {
+            Ok(v) => v,
+            Err(e) => return Some(Err(too_big(&e))),
+        };
+        let fo = match IpFragOffset::try_new(fo) {
+            Ok(v) => v,
+            Err(e) => return Some(Err(too_big(&e))),
+        };
+        let options = match Ipv4Options::try_from(&opts[..]) {
+            Ok(v) => v,
+            Err(e) => return Some(Err(format!("err(badoptlen({}))", e.bad_len))),
+        };
+        Some(Ok(Ipv4Header {
+            dscp,
+            ecn,
+            total_len: tlen,
+            identification: id,
+            dont_fragment: df,
+            more_fragments: mf,
+            fragment_offset: fo,
+            time_to_live: ttl,
+            protocol: IpNumber(proto),
+            header_checksum: ck,
+            source: src,
+            destination: dst,
+            options,
+        }))
+    } else {
+        None
+    }
+}
+
+fn ipv6_value(a: &[&str]) -> P<Ipv6Header> {
+    if let [tc, fl, plen, nh, hop, src, dst] = a {
+        let tc: u8 = num(tc)?;
+        let fl: u32 = num(fl)?;
+        let plen: u16 = num(plen)?;
+        let nh: u8 = num(nh)?;
+        let hop: u8 = num(hop)?;
+        let src = hex_n::<16>(src)?;
+        let dst = hex_n::<16>(dst)?;
+        let fl = match Ipv6FlowLabel::try_new(fl) {
+            Ok(v) => v,
+            Err(e) => return Some(Err(too_big(&e))),
+        };
+        Some(Ok(Ipv6Header {
+            traffic_class: tc,
+            flow_label: fl,
+            payload_length: plen,
+            next_header: IpNumber(nh),
+            hop_limit: hop,
+            source: src,
+            destination: dst,
+        }))
+    } else {
+        None
+    }
+}
+
+fn arp_value(a: &[&str]) -> P<ArpPacket> {
+    match a {
+        [hw, pr, op, s1, s2, t1, t2] => {
+            let hw: u16 = num(hw)?;
+            let pr: u16 = num(pr)?;
+            let op: u16 = num(op)?;
+            let (s1, s2, t1, t2) = (hex(s1)?, hex(s2)?, hex(t1)?, hex(t2)?);
+            Some(
+                ArpPacket::new(
+                    ArpHardwareId(hw),
+                    EtherType(pr),
+                    ArpOperation(op),
+                    &s1,
+                    &s2,
+                    &t1,
+                    &t2,
+                )
+                .map_err(|e| {
+                    use err::arp::*;
+                    match e {
+                        ArpNewError::HwAddr(ArpHwAddrError::LenNonMatching(a, b)) => {
+                            format!("err(arpnew(HwAddr(LenNonMatching({},{}))))", a, b)
+                        }
+                        ArpNewError::HwAddr(ArpHwAddrError::LenTooBig(a)) => {
+                            format!("err(arpnew(HwAddr(LenTooBig({}))))", a)
+                        }
+                        ArpNewError::ProtoAddr(ArpProtoAddrError::LenNonMatching(a, b)) => {
+                            format!("err(arpnew(ProtoAddr(LenNonMatching({},{}))))", a, b)
+                        }
+                        ArpNewError::ProtoAddr(ArpProtoAddrError::LenTooBig(a)) => {
+                            format!("err(arpnew(ProtoAddr(LenTooBig({}))))", a)
+                        }
+                    }
+                }),
+            )
+        }
+        _ => None,
+    }
+}
+
+macro_rules! tryp {
+    ($e:expr) => {
+        match $e? {
+            Ok(v) => v,
+            Err(m) => return Some(Err(m)),
+        }
+    };
+}
+
+fn parse_net(s: &str) -> P<NetC> {
+    let mut secs = s.split('|');
+    let main = colon(secs.next()?);
+    let subs: Vec<&str> = secs.collect();
+    match (&main[..], &subs[..]) {
+        (["arp", r @ ..], []) => Some(Ok(NetC::Arp(tryp!(arp_value(r))))),
+        (["v4", a, b, t], []) => Some(Ok(NetC::V4(hex_n::<4>(a)?, hex_n::<4>(b)?, num(t)?))),
+        (["v6", a, b, t], []) => Some(Ok(NetC::V6(hex_n::<16>(a)?, hex_n::<16>(b)?, num(t)?))),
+        (["ip4", r @ ..], subs) => {
+            let ip = tryp!(ipv4_value(r));
+            match subs {
+                [] => Some(Ok(NetC::Ip(IpHeaders::Ipv4(ip, Ipv4Extensions { auth: None })))),
+                [au] => {
+                    let p = colon(au);
+                    match &p[..] {
+                        ["au", nh, spi, seq, icv] => {
+                            let h = tryp!(auth_value(nh, spi, seq, icv));
+                            Some(Ok(NetC::Ip(IpHeaders::Ipv4(
+                                ip,
+                                Ipv4Extensions { auth: Some(h) },
+                            ))))
+                        }
+                        _ => None,
+                    }
+                }
+                _ => None,
+            }
+        }
+        (["ip6", r @ ..], subs) => {
+            let ip = tryp!(ipv6_value(r));
+            let mut e = Ipv6Extensions {
+                hop_by_hop_options: None,
+                destination_options: None,
+                routing: None,
+                fragment: None,
+                auth: None,
+            };
+            let mut fd: Option<Ipv6RawExtHeader> = None;
+            for sub in subs {
+                let p = colon(sub);
+                match &p[..] {
+                    ["hbh", nh, pl] => {
+                        if e.hop_by_hop_options.is_some() {
+                            return None;
+                        }
+                        e.hop_by_hop_options = Some(tryp!(rawext_value(nh, pl)));
+                    }
+                    ["dst", nh, pl] => {
+                        if e.destination_options.is_some() {
+                            return None;
+                        }
+                        e.destination_options = Some(tryp!(rawext_value(nh, pl)));
+                    }
+                    ["rt", nh, pl] => {
+                        if e.routing.is_some() {
+                            return None;
+                        }
+                        e.routing = Some(Ipv6RoutingExtensions {
+                            routing: tryp!(rawext_value(nh, pl)),
+                            final_destination_options: None,
+                        });
+                    }
+                    ["fd", nh, pl] => {
+                        if fd.is_some() {
+                            return None;
+                        }
+                        fd = Some(tryp!(rawext_value(nh, pl)));
+                    }
+                    ["fr", nh, fo, mf, id] => {
+                        if e.fragment.is_some() {
+                            return None;
+                        }
+                        e.fragment = Some(tryp!(frag_value(nh, fo, mf, id)));
+                    }
+                    ["au", nh, spi, seq, icv] => {
+                        if e.auth.is_some() {
+                            return None;
+                        }
+                        e.auth = Some(tryp!(auth_value(nh, spi, seq, icv)));
+                    }
+                    _ => return None,
+                }
+            }
+            if let Some(f) = fd {
+                match e.routing.as_mut() {
+                    Some(r) => r.final_destination_options = Some(f),
+                    None => return None,
+                }
+            }
+            Some(Ok(NetC::Ip(IpHeaders::Ipv6(ip, e))))
+        }
+        _ => None,
+    }
+}
+
+fn parse_flag(s: &str) -> Option<FlagOp> {
+    let p: Vec<&str> = s.split('=').collect();
+    match &p[..] {
+        ["ns"] => Some(FlagOp::Ns),
+        ["fin"] => Some(FlagOp::Fin),
+        ["syn"] => Some(FlagOp::Syn),
+        ["rst"] => Some(FlagOp::Rst),
+        ["psh"] => Some(FlagOp::Psh),
+        ["ece"] => Some(FlagOp::Ece),
+        ["cwr"] => Some(FlagOp::Cwr),
+        ["ack", n] => Some(FlagOp::Ack(num(n)?)),
+        ["urg", n] => Some(FlagOp::Urg(num(n)?)),
+        _ => None,
+    }
+}
+
+// --- TCP option elements: the `opt.*` grammar (harness/src/opt.rs)
+fn parse_pair(s: &str) -> Option<(u32, u32)> {
+    let (a, b) = s.split_once('-')?;
+    if b.contains('-') {
+        return None;
+    }
+    Some((num(a)?, num(b)?))
+}
+fn parse_slot(s: &str) -> Option<Option<(u32, u32)>> {
+    if s == "_" {
+        Some(None)
+    } else {
+        parse_pair(s).map(Some)
+    }
+}
+fn parse_elem(s: &str) -> Option<TcpOptionElement> {
+    use TcpOptionElement::*;
+    if s == "nop" {
+        return Some(Noop);
+    }
+    if s == "sackp" {
+        return Some(SelectiveAcknowledgementPermitted);
+    }
+    let p = colon(s);
+    match &p[..] {
+        ["mss", v] => Some(MaximumSegmentSize(num(v)?)),
+        ["ws", v] => Some(WindowScale(num(v)?)),
+        ["ts", a, b] => Some(Timestamp(num(a)?, num(b)?)),
+        ["sack", v] => {
+            let q: Vec<&str> = v.split(';').collect();
+            match &q[..] {
+                [f, s0, s1, s2] => Some(SelectiveAcknowledgement(
+                    parse_pair(f)?,
+                    [parse_slot(s0)?, parse_slot(s1)?, parse_slot(s2)?],
+                )),
+                _ => None,
+            }
+        }
+        _ => None,
+    }
+}
+fn parse_elems(s: &str) -> Option<Vec<TcpOptionElement>> {
+    if s == "-" {
+        return Some(Vec::new());
+    }
+    s.split(',').map(parse_elem).collect()
+}
+
+fn icmp4_type(v: &str, args: &str) -> P<Icmpv4Type> {
+    use icmpv4::*;
+    let l = list(args);
+    let bad = || Some(Err("err(code)".to_string()));
+    let ty = match (v, &l[..]) {
+        ("unknown", [t, c, b]) => Icmpv4Type::Unknown {
+            type_u8: num(t)?,
+            code_u8: num(c)?,
+            bytes5to8: hex_n::<4>(b)?,
+        },
+        ("echoreply", [i, s]) => Icmpv4Type::EchoReply(IcmpEchoHeader {
+            id: num(i)?,
+            seq: num(s)?,
+        }),
+        ("echoreq", [i, s]) => Icmpv4Type::EchoRequest(IcmpEchoHeader {
+            id: num(i)?,
+            seq: num(s)?,
+        }),
+        ("du", [c, m]) => match DestUnreachableHeader::from_values(num(c)?, num(m)?) {
+            Some(d) => Icmpv4Type::DestinationUnreachable(d),
+            None => return bad(),
+        },
+        ("redirect", [c, g]) => {
+            let g = hex_n::<4>(g)?;
+            match RedirectCode::from_u8(num(c)?) {
+                Some(code) => Icmpv4Type::Redirect(RedirectHeader {
+                    code,
+                    gateway_internet_address: g,
+                }),
+                None => return bad(),
+            }
+        }
+        ("te", [c]) => match TimeExceededCode::from_u8(num(c)?) {
+            Some(code) => Icmpv4Type::TimeExceeded(code),
+            None => return bad(),
+        },
+        ("pp", [c, p]) => match ParameterProblemHeader::from_values(num(c)?, num(p)?) {
+            Some(x) => Icmpv4Type::ParameterProblem(x),
+            None => return bad(),
+        },
+        ("tsreq", [i, s, o, r, t]) => Icmpv4Type::TimestampRequest(TimestampMessage {
+            id: num(i)?,
+            seq: num(s)?,
+            originate_timestamp: num(o)?,
+            receive_timestamp: num(r)?,
+            transmit_timestamp: num(t)?,
+        }),
+        ("tsreply", [i, s, o, r, t]) => Icmpv4Type::TimestampReply(TimestampMessage {
+            id: num(i)?,
+            seq: num(s)?,
+            originate_timestamp: num(o)?,
+            receive_timestamp: num(r)?,
+            transmit_timestamp: num(t)?,
+        }),
+        _ => return None,
+    };
+    Some(Ok(ty))
+}
+
+fn icmp6_type(v: &str, args: &str) -> P<Icmpv6Type> {
+    use icmpv6::*;
+    let l = list(args);
+    let bad = || Some(Err("err(code)".to_string()));
+    let ty = match (v, &l[..]) {
+        ("unknown", [t, c, b]) => Icmpv6Type::Unknown {
+            type_u8: num(t)?,
+            code_u8: num(c)?,
+            bytes5to8: hex_n::<4>(b)?,
+        },
+        ("du", [c]) => match DestUnreachableCode::from_u8(num(c)?) {
+            Some(code) => Icmpv6Type::DestinationUnreachable(code),
+            None => return bad(),
+        },
+        ("ptb", [m]) => Icmpv6Type::PacketTooBig { mtu: num(m)? },
+        ("te", [c]) => match TimeExceededCode::from_u8(num(c)?) {
+            Some(code) => Icmpv6Type::TimeExceeded(code),
+            None => return bad(),
+        },
+        ("pp", [c, p]) => {
+            let pointer: u32 = num(p)?;
+            match ParameterProblemCode::from_u8(num(c)?) {
+                Some(code) => {
+                    Icmpv6Type::ParameterProblem(ParameterProblemHeader { code, pointer })
+                }
+                None => return bad(),
+            }
+        }
+        ("echoreq", [i, s]) => Icmpv6Type::EchoRequest(IcmpEchoHeader {
+            id: num(i)?,
+            seq: num(s)?,
+        }),
+        ("echoreply", [i, s]) => Icmpv6Type::EchoReply(IcmpEchoHeader {
+            id: num(i)?,
+            seq: num(s)?,
+        }),
+        ("rs", []) => Icmpv6Type::RouterSolicitation,
+        ("ra", [c, m, o, lt]) => Icmpv6Type::RouterAdvertisement(RouterAdvertisementHeader {
+            cur_hop_limit: num(c)?,
+            managed_address_config: boolean(m)?,
+            other_config: boolean(o)?,
+            router_lifetime: num(lt)?,
+        }),
+        ("ns", []) => Icmpv6Type::NeighborSolicitation,
+        ("na", [r, s, o]) => Icmpv6Type::NeighborAdvertisement(NeighborAdvertisementHeader {
+            router: boolean(r)?,
+            solicited: boolean(s)?,
+            r#override: boolean(o)?,
+        }),
+        ("redirect", []) => Icmpv6Type::Redirect,
+        _ => return None,
+    };
+    Some(Ok(ty))
+}
+
+fn parse_icmp<T>(r: &[&str], ty: &dyn Fn(&str, &str) -> P<T>) -> P<IcmpC<T>> {
+    match r {
+        ["t", v, args] => Some(Ok(IcmpC::T(tryp!(ty(v, args))))),
+        ["raw", t, c, b] => Some(Ok(IcmpC::Raw(num(t)?, num(c)?, hex_n::<4>(b)?))),
+        ["ereq", i, s] => Some(Ok(IcmpC::Ereq(num(i)?, num(s)?))),
+        ["erep", i, s] => Some(Ok(IcmpC::Erep(num(i)?, num(s)?))),
+        _ => None,
+    }
+}
+
+fn tcp_header_value(a: &[&str]) -> P<TcpHeader> {
+    match a {
+        [sp, dp, seq, ack, fl, win, ck, urg, opts] => {
+            let mut h = TcpHeader::new(num(sp)?, num(dp)?, num(seq)?, num(win)?);
+            h.acknowledgment_number = num(ack)?;
+            h.checksum = num(ck)?;
+            h.urgent_pointer = num(urg)?;
+            let opts = hex(opts)?;
+            if fl.len() != 9 {
+                return None;
+            }
+            let mut bits = [false; 9];
+            for (i, c) in fl.chars().enumerate() {
+                bits[i] = match c {
+                    '1' => true,
+                    '0' => false,
+                    _ => return None,
+                };
+            }
+            h.ns = bits[0];
+            h.fin = bits[1];
+            h.syn = bits[2];
+            h.rst = bits[3];
+            h.psh = bits[4];
+            h.ack = bits[5];
+            h.urg = bits[6];
+            h.ece = bits[7];
+            h.cwr = bits[8];
+            Some(match h.set_options_raw(&opts) {
+                Ok(()) => Ok(h),
+                Err(TcpOptionWriteError::NotEnoughSpace(n)) => {
+                    Err(format!("err(ctor(TcpOptions(NotEnoughSpace({}))))", n))
+                }
+            })
+        }
+        _ => None,
+    }
+}
+
+fn parse_tp(s: &str) -> P<TpC> {
+    let secs: Vec<&str> = s.split('|').collect();
+    match &secs[..] {
+        [main] => {
+            let p = colon(main);
+            match &p[..] {
+                ["none"] => Some(Ok(TpC::None)),
+                ["raw", n] => Some(Ok(TpC::Raw(num(n)?))),
+                ["udp", a, b] => Some(Ok(TpC::Udp(num(a)?, num(b)?))),
+                ["tcph", r @ ..] => Some(Ok(TpC::TcpH(tryp!(tcp_header_value(r))))),
+                ["i4", r @ ..] => Some(Ok(TpC::I4(tryp!(parse_icmp(r, &icmp4_type))))),
+                ["i6", r @ ..] => Some(Ok(TpC::I6(tryp!(parse_icmp(r, &icmp6_type))))),
+                _ => None,
+            }
+        }
+        [main, flags, opts] => {
+            let p = colon(main);
+            match &p[..] {
+                ["tcp", a, b, c, d] => {
+                    let (a, b, c, d) = (num(a)?, num(b)?, num(c)?, num(d)?);
+                    let fl: Option<Vec<FlagOp>> = list(flags).into_iter().map(parse_flag).collect();
+                    let fl = fl?;
+                    let o = if *opts == "-" {
+                        OptC::None
+                    } else if let Some(h) = opts.strip_prefix("raw=") {
+                        OptC::Raw(hex(h)?)
+                    } else if let Some(e) = opts.strip_prefix("el=") {
+                        OptC::El(parse_elems(e)?)
+                    } else {
+                        return None;
+                    };
+                    Some(Ok(TpC::Tcp(a, b, c, d, fl, o)))
+                }
+                _ => None,
+            }
+        }
+        _ => None,
+    }
+}
+
+fn parse_cfg(s: &str) -> P<Cfg> {
+    let secs: Vec<&str> = s.split('/').collect();
+    match &secs[..] {
+        [l, v, n, t] => {
+            let link = parse_link(l)?;
+            let vlan = parse_vlan(v)?;
+            let net = tryp!(parse_net(n));
+            let tp = tryp!(parse_tp(t));
+            let is_eth = matches!(link, LinkC::Eth(..));
+            let is_arp = matches!(net, NetC::Arp(_));
+            if !matches!(vlan, VlanC::None) && !is_eth {
+                return None;
+            }
+            if is_arp && (matches!(link, LinkC::None) || *t != "none") {
+                return None;
+            }
+            if !is_arp && *t == "none" {
+                return None;
+            }
+            Some(Ok(Cfg {
+                link,
+                vlan,
+                net,
+                tp,
+            }))
+        }
+        _ => None,
+    }
+}
+
+// ---------------------------------------------------------------------------------------------
+// constructing the builder through the public typed steps
+
+enum Final {
+    Udp(PacketBuilderStep<UdpHeader>),
+    Tcp(PacketBuilderStep<TcpHeader>),
+    I4(PacketBuilderStep<Icmpv4Header>),
+    I6(PacketBuilderStep<Icmpv6Header>),
+    Raw(PacketBuilderStep<IpHeaders>, IpNumber),
+    Arp(PacketBuilderStep<ArpPacket>),
+}
+
+enum AfterNet {
+    Ip(PacketBuilderStep<IpHeaders>),
+    Arp(PacketBuilderStep<ArpPacket>),
+}
+
+fn after_net(c: &Cfg) -> Option<AfterNet> {
+    // every combination goes through the method of the step type it is offered on
+    Some(match (&c.link, &c.vlan) {
+        (LinkC::None, _) => match &c.net {
+            NetC::V4(a, b, t) => AfterNet::Ip(PacketBuilder::ipv4(*a, *b, *t)),
+            NetC::V6(a, b, t) => AfterNet::Ip(PacketBuilder::ipv6(*a, *b, *t)),
+            NetC::Ip(h) => AfterNet::Ip(PacketBuilder::ip(h.clone())),
+            NetC::Arp(_) => return None,
+        },
+        (LinkC::Eth(s, d), VlanC::None) => {
+            let b = PacketBuilder::ethernet2(*s, *d);
+            match &c.net {
+                NetC::V4(a, bb, t) => AfterNet::Ip(b.ipv4(*a, *bb, *t)),
+                NetC::V6(a, bb, t) => AfterNet::Ip(b.ipv6(*a, *bb, *t)),
+                NetC::Ip(h) => AfterNet::Ip(b.ip(h.clone())),
+                NetC::Arp(p) => AfterNet::Arp(b.arp(p.clone())),
+            }
+        }
+        (LinkC::Eth(s, d), v) => {
+            let b = PacketBuilder::ethernet2(*s, *d);
+            let b = match v {
+                VlanC::S(id) => b.single_vlan(*id),
+                VlanC::D(o, i) => b.double_vlan(*o, *i),
+                VlanC::V(h) => b.vlan(h.clone()),
+                VlanC::None => return None,
+            };
+            match &c.net {
+                NetC::V4(a, bb, t) => AfterNet::Ip(b.ipv4(*a, *bb, *t)),
+                NetC::V6(a, bb, t) => AfterNet::Ip(b.ipv6(*a, *bb, *t)),
+                NetC::Ip(h) => AfterNet::Ip(b.ip(h.clone())),
+                NetC::Arp(p) => AfterNet::Arp(b.arp(p.clone())),
+            }
+        }
+        (LinkC::Sll(pt, alen, addr), _) => {
+            let b = PacketBuilder::linux_sll(*pt, *alen, *addr);
+            match &c.net {
+                NetC::V4(a, bb, t) => AfterNet::Ip(b.ipv4(*a, *bb, *t)),
+                NetC::V6(a, bb, t) => AfterNet::Ip(b.ipv6(*a, *bb, *t)),
+                NetC::Ip(h) => AfterNet::Ip(b.ip(h.clone())),
+                NetC::Arp(p) => AfterNet::Arp(b.arp(p.clone())),
+            }
+        }
+    })
+}
+
+fn mk(c: &Cfg) -> Result<Final, String> {
+    let an = after_net(c).ok_or_else(|| "bad-op".to_string())?;
+    let ip = match an {
+        AfterNet::Arp(b) => return Ok(Final::Arp(b)),
+        AfterNet::Ip(b) => b,
+    };
+    Ok(match &c.tp {
+        TpC::None => return Err("bad-op".to_string()),
+        TpC::Raw(n) => Final::Raw(ip, IpNumber(*n)),
+        TpC::Udp(a, b) => Final::Udp(ip.udp(*a, *b)),
+        TpC::TcpH(h) => Final::Tcp(ip.tcp_header(h.clone())),
+        TpC::Tcp(a, b, s, w, flags, opts) => {
+            let mut t = ip.tcp(*a, *b, *s, *w);
+            for f in flags {
+                t = match f {
+                    FlagOp::Ns => t.ns(),
+                    FlagOp::Fin => t.fin(),
+                    FlagOp::Syn => t.syn(),
+                    FlagOp::Rst => t.rst(),
+                    FlagOp::Psh => t.psh(),
+                    FlagOp::Ece => t.ece(),
+                    FlagOp::Cwr => t.cwr(),
+                    FlagOp::Ack(n) => t.ack(*n),
+                    FlagOp::Urg(n) => t.urg(*n),
+                };
+            }
+            let r = match opts {
+                OptC::None => Ok(t),
+                OptC::Raw(b) => t.options_raw(b),
+                OptC::El(e) => t.options(e),
+            };
+            match r {
+                Ok(t) => Final::Tcp(t),
+                Err(TcpOptionWriteError::NotEnoughSpace(n)) => {
+                    return Err(format!("err(ctor(TcpOptions(NotEnoughSpace({}))))", n))
+                }
+            }
+        }
+        TpC::I4(i) => Final::I4(match i {
+            IcmpC::T(t) => ip.icmpv4(t.clone()),
+            IcmpC::Raw(t, c, b) => ip.icmpv4_raw(*t, *c, *b),
+            IcmpC::Ereq(i, s) => ip.icmpv4_echo_request(*i, *s),
+            IcmpC::Erep(i, s) => ip.icmpv4_echo_reply(*i, *s),
+        }),
+        TpC::I6(i) => Final::I6(match i {
+            IcmpC::T(t) => ip.icmpv6(t.clone()),
+            IcmpC::Raw(t, c, b) => ip.icmpv6_raw(*t, *c, *b),
+            IcmpC::Ereq(i, s) => ip.icmpv6_echo_request(*i, *s),
+            IcmpC::Erep(i, s) => ip.icmpv6_echo_reply(*i, *s),
+        }),
+    })
+}
+
+/// a plain `std::io::Write` that is not a `Vec` (so the generic `write` path is exercised)
+struct Sink(Vec<u8>);
+impl std::io::Write for Sink {
+    fn write(&mut self, buf: &[u8]) -> std::io::Result<usize> {
+        self.0.extend_from_slice(buf);
+        Ok(buf.len())
+    }
+    fn flush(&mut self) -> std::io::Result<()> {
+        Ok(())
+    }
+}
+
+impl Final {
+    fn size(&self, n: usize) -> usize {
+        match self {
+            Final::Udp(b) => b.size(n),
+            Final::Tcp(b) => b.size(n),
+            Final::I4(b) => b.size(n),
+            Final::I6(b) => b.size(n),
+            Final::Raw(b, _) => b.size(n),
+            Final::Arp(b) => b.size(),
+        }
+    }
+    fn write(self, w: &mut Sink, p: &[u8]) -> Result<(), BuildWriteError> {
+        match self {
+            Final::Udp(b) => b.write(w, p),
+            Final::Tcp(b) => b.write(w, p),
+            Final::I4(b) => b.write(w, p),
+            Final::I6(b) => b.write(w, p),
+            Final::Raw(b, n) => b.write(w, n, p),
+            Final::Arp(b) => b.write(w),
+        }
+    }
+    fn write_to_vec(self, w: &mut Vec<u8>, p: &[u8]) -> Result<(), BuildVecWriteError> {
+        match self {
+            Final::Udp(b) => b.write_to_vec(w, p),
+            Final::Tcp(b) => b.write_to_vec(w, p),
+            Final::I4(b) => b.write_to_vec(w, p),
+            Final::I6(b) => b.write_to_vec(w, p),
+            Final::Raw(b, n) => b.write_to_vec(w, n, p),
+            Final::Arp(b) => b.write_to_vec(w),
+        }
+    }
+    fn write_to_slice(self, w: &mut [u8], p: &[u8]) -> Result<usize, BuildSliceWriteError> {
+        match self {
+            Final::Udp(b) => b.write_to_slice(w, p),
+            Final::Tcp(b) => b.write_to_slice(w, p),
+            Final::I4(b) => b.write_to_slice(w, p),
+            Final::I6(b) => b.write_to_slice(w, p),
+            Final::Raw(b, n) => b.write_to_slice(w, n, p),
+            Final::Arp(b) => b.write_to_slice(w),
+        }
+    }
+}
+
+// ---------------------------------------------------------------------------------------------
+// rendering
+
+/// Adler-32 (RFC 1950)
+fn digest(b: &[u8]) -> u64 {
+    let (mut a, mut s): (u64, u64) = (1, 0);
+    for x in b {
+        a = (a + (*x as u64)) % 65521;
+        s = (s + a) % 65521;
+    }
+    s * 65536 + a
+}
+
+fn show_bytes(b: &[u8]) -> String {
+    if b.len() > 2000 {
+        format!(
+            "head={},tail={},ck={}",
+            to_hex(&b[..128]),
+            to_hex(&b[b.len() - 16..]),
+            digest(b)
+        )
+    } else {
+        format!("b={}", to_hex(b))
+    }
+}
+
+fn payload_len(e: &ValueTooBigError<usize>) -> String {
+    format!(
+        "PayloadLen(actual={},max={},type={:?})",
+        e.actual, e.max_allowed, e.value_type
+    )
+}
+fn v4exts(e: &err::ipv4_exts::ExtsWalkError) -> String {
+    match e {
+        err::ipv4_exts::ExtsWalkError::ExtNotReferenced { missing_ext } => {
+            format!("Ipv4Exts(ExtNotReferenced({}))", missing_ext.0)
+        }
+    }
+}
+fn v6exts(e: &err::ipv6_exts::ExtsWalkError) -> String {
+    match e {
+        err::ipv6_exts::ExtsWalkError::HopByHopNotAtStart => {
+            "Ipv6Exts(HopByHopNotAtStart)".to_string()
+        }
+        err::ipv6_exts::ExtsWalkError::ExtNotReferenced { missing_ext } => {
+            format!("Ipv6Exts(ExtNotReferenced({}))", missing_ext.0)
+        }
+    }
+}
+
+fn show_write_err(e: &BuildWriteError) -> String {
+    match e {
+        BuildWriteError::Io(e) => format!("Io({:?})", e.kind()),
+        BuildWriteError::PayloadLen(e) => payload_len(e),
+        BuildWriteError::Ipv4Exts(e) => v4exts(e),
+        BuildWriteError::Ipv6Exts(e) => v6exts(e),
+        BuildWriteError::Icmpv6InIpv4 => "Icmpv6InIpv4".to_string(),
+        BuildWriteError::ArpHeaderNotMatch => "ArpHeaderNotMatch".to_string(),
+    }
+}
+fn show_vec_err(e: &BuildVecWriteError) -> String {
+    match e {
+        BuildVecWriteError::PayloadLen(e) => payload_len(e),
+        BuildVecWriteError::Ipv4Exts(e) => v4exts(e),
+        BuildVecWriteError::Ipv6Exts(e) => v6exts(e),
+        BuildVecWriteError::Icmpv6InIpv4 => "Icmpv6InIpv4".to_string(),
+        BuildVecWriteError::ArpHeaderNotMatch => "ArpHeaderNotMatch".to_string(),
+    }
+}
+fn show_slice_err(e: &BuildSliceWriteError) -> String {
+    match e {
+        BuildSliceWriteError::Space(n) => format!("Space({})", n),
+        BuildSliceWriteError::PayloadLen(e) => payload_len(e),
+        BuildSliceWriteError::Ipv4Exts(e) => v4exts(e),
+        BuildSliceWriteError::Ipv6Exts(e) => v6exts(e),
+        BuildSliceWriteError::Icmpv6InIpv4 => "Icmpv6InIpv4".to_string(),
+        BuildSliceWriteError::ArpHeaderNotMatch => "ArpHeaderNotMatch".to_string(),
+    }
+}
+
+fn run_write(c: &Cfg, payload: &[u8]) -> String {
+    let (b1, b2, b3) = match (mk(c), mk(c), mk(c)) {
+        (Ok(a), Ok(b), Ok(c)) => (a, b, c),
+        (Err(m), _, _) => return m,
+        _ => return "!mk-nondeterministic".to_string(),
+    };
+    let size = b1.size(payload.len());
+    let sizes_same = size == b2.size(payload.len()) && size == b3.size(payload.len());
+    // 1. generic io::Write
+    let mut sink = Sink(Vec::new());
+    let r1 = b1.write(&mut sink, payload);
+    // 2. write_to_vec (appends to an existing vector: start with a marker prefix)
+    let mut v = vec![0x5a, 0xa5];
+    let r2 = b2.write_to_vec(&mut v, payload);
+    // 3. write_to_slice, exact size, canary-filled
+    let mut buf = vec![0xaau8; size];
+    let r3 = b3.write_to_slice(&mut buf, payload);
+
+    let line = match &r1 {
+        Ok(()) => format!("ok(size={},len={},{})", size, sink.0.len(), show_bytes(&sink.0)),
+        Err(e) => format!(
+            "err({},size={},written={})",
+            show_write_err(e),
+            size,
+            to_hex(&sink.0)
+        ),
+    };
+    // compare
+    let mut diffs: Vec<String> = Vec::new();
+    if !sizes_same {
+        diffs.push("size".to_string());
+    }
+    if v.len() < 2 || v[..2] != [0x5a, 0xa5] {
+        diffs.push("vec-prefix-clobbered".to_string());
+    }
+    match (&r1, &r2) {
+        (Ok(()), Ok(())) => {
+            if v[2..] != sink.0[..] {
+                diffs.push("vec-bytes".to_string());
+            }
+        }
+        (Err(e1), Err(e2)) => {
+            if show_write_err(e1) != show_vec_err(e2) {
+                diffs.push(format!("vec-err={}", show_vec_err(e2)));
+            }
+            if v[2..] != sink.0[..] {
+                diffs.push("vec-partial".to_string());
+            }
+        }
+        (Ok(()), Err(e2)) => diffs.push(format!("vec-err={}", show_vec_err(e2))),
+        (Err(_), Ok(())) => diffs.push("vec-ok".to_string()),
+    }
+    match (&r1, &r3) {
+        (Ok(()), Ok(n)) => {
+            if *n != size {
+                diffs.push(format!("slice-n={}", n));
+            }
+            if buf[..] != sink.0[..] {
+                diffs.push("slice-bytes".to_string());
+            }
+        }
+        (Err(e1), Err(e3)) => {
+            if show_write_err(e1) != show_slice_err(e3) {
+                diffs.push(format!("slice-err={}", show_slice_err(e3)));
+            }
+            // what was written before the error is the same prefix, the rest is untouched
+            let k = sink.0.len().min(buf.len());
+            if buf[..k] != sink.0[..k] || buf[k..].iter().any(|x| *x != 0xaa) {
+                diffs.push("slice-partial".to_string());
+            }
+        }
+        (Ok(()), Err(e3)) => diffs.push(format!("slice-err={}", show_slice_err(e3))),
+        (Err(_), Ok(n)) => diffs.push(format!("slice-ok={}", n)),
+    }
+    if diffs.is_empty() {
+        line
+    } else {
+        format!("{}!serialisers-differ({})", line, diffs.join(";"))
+    }
+}
+
+fn run_slice(c: &Cfg, payload: &[u8], cap: usize) -> String {
+    let b = match mk(c) {
+        Ok(b) => b,
+        Err(m) => return m,
+    };
+    // canary behind the buffer handed to the builder
+    let mut buf = vec![0xaau8; cap + 8];
+    let r = b.write_to_slice(&mut buf[..cap], payload);
+    let tail_ok = buf[cap..].iter().all(|x| *x == 0xaa);
+    let s = match r {
+        Ok(n) => {
+            if n > cap {
+                return format!("!returned-more-than-cap({})", n);
+            }
+            let untouched = buf[n..cap].iter().all(|x| *x == 0xaa);
+            format!(
+                "ok(n={},len={},{}){}",
+                n,
+                n,
+                show_bytes(&buf[..n]),
+                if untouched { "" } else { "!wrote-behind-returned-length" }
+            )
+        }
+        Err(e) => format!("err({})", show_slice_err(&e)),
+    };
+    if tail_ok {
+        s
+    } else {
+        format!("{}!wrote-outside-buffer", s)
+    }
+}
+
+pub fn run(op: &str, a: &[&str]) -> Option<String> {
+    match (op, a) {
+        ("build.write", [c, p]) => {
+            let payload = parse_payload(p)?;
+            let cfg = match parse_cfg(c)? {
+                Ok(c) => c,
+                Err(m) => return Some(m),
+            };
+            if matches!(cfg.net, NetC::Arp(_)) && !payload.is_empty() {
+                return None;
+            }
+            Some(run_write(&cfg, &payload))
+        }
+        ("build.slice", [c, p, cap]) => {
+            let payload = parse_payload(p)?;
+            let cap: usize = num(cap)?;
+            if cap >= 1_000_000 {
+                return None;
+            }
+            let cfg = match parse_cfg(c)? {
+                Ok(c) => c,
+                Err(m) => return Some(m),
+            };
+            if matches!(cfg.net, NetC::Arp(_)) && !payload.is_empty() {
+                return None;
+            }
+            Some(run_slice(&cfg, &payload, cap))
+        }
+        _ => None,
+    }
 }
